@@ -1387,7 +1387,7 @@ def mutate_verilog(rng, ast, tlib):
     assigns = [i for i, s in enumerate(st) if s[0] == 'assign']
     buses = [n for i in decls if st[i][2] is not None and st[i][2][0] != st[i][2][-1] for n in st[i][3]]
     m = rng.choice(['dup-inst', 'bus-on-pin', 'unknown-pin', 'unknown-cell', 'undeclared-port', 'double-assign', 'width-mismatch',
-                    'dup-port', 'port-as-wire', 'dup-pin', 'read-undriven', 'drop-driver', 'bad-const', 'const-on-output-pin',
+                    'dup-port', 'port-as-wire', 'dup-pin', 'read-undriven', 'drop-driver', 'bad-const', 'bad-const-pin', 'const-on-output-pin',
                     'reverse-select', 'single-index-decl', 'second-declaration', 'inst-named-like-port', 'empty-module', 'one-item-concat-pin'])
     if m == 'dup-inst' and insts:
         st.insert(rng.randint(0, len(st)), copy.deepcopy(st[rng.choice(insts)]))
@@ -1431,6 +1431,12 @@ def mutate_verilog(rng, ast, tlib):
         del st[rng.choice(insts + assigns)]
     elif m == 'bad-const' and assigns:
         st[rng.choice(assigns)][2] = rng.choice([['k', 0, 'b', '0'], ['k', 2, 'd', 'f'], ['k', 3, 'b', '2']])
+    elif m == 'bad-const-pin' and insts:
+        # a malformed sized constant ON AN INPUT PIN (`.I(1'b2)`: the real transformer raises in int(); witness of audit 2, finding 1)
+        i = rng.choice(insts)
+        ins = [p for p in st[i][3] if p[1] is not None and not tlib.cells[st[i][1]][1].get(p[0], (0, True))[1]]
+        if not ins: return None
+        rng.choice(ins)[1] = rng.choice([['k', 1, 'b', '2'], ['k', 1, 'd', 'f'], ['k', 0, 'b', '0'], ['k', 1, 'h', 'g']])
     elif m == 'const-on-output-pin' and insts:
         i = rng.choice(insts)
         outs = [p for p in st[i][3] if tlib.cells[st[i][1]][1].get(p[0], (0, False))[1]]
